@@ -27,8 +27,16 @@ def check(spec):
             a.atom_types[-1] = a.atom_types[0]
             a.charges[-1] = a.charges[0]
             a.groups[-1] = a.groups[0]
+        if spec.get('tiny_net'):
+            # charges rounded to three decimals that leave a small residual net charge per cell (+0.003)
+            a.charges = np.array([0.001 * ((7 * i) % 5 - 2) for i in range(len(a.positions))], dtype=float)
+            a.charges[0] += 0.003 - a.charges.sum()
         va = gen.view(a)
         reps = tuple(spec['reps'])
+        if spec.get('reps_as') == 'array':
+            reps = np.array(spec['reps'])          # what the command line's --mic path passes
+        elif spec.get('reps_as') == 'list':
+            reps = list(spec['reps'])
         try:
             r = a.replicate(reps)
         except Exception as e:
@@ -40,7 +48,7 @@ def check(spec):
         return "the original object was modified"
     N = len(va['atoms'])
     A, B, C = CELLS[spec['cell']]
-    ra, rb, rc = reps
+    ra, rb, rc = (int(x) for x in reps)
     if len(vr['atoms']) != ra * rb * rc * N:
         return "%d atoms, expected %d" % (len(vr['atoms']), ra * rb * rc * N)
     want_cell = np.array([ra * A, rb * B, rc * C])
@@ -79,7 +87,7 @@ def check(spec):
         key = lambda t: (t['atoms'], t['type'], t['coeff'], t['extra'])
         if sorted(map(key, got), key=repr) != sorted(map(key, want), key=repr):
             return "%s after replication: %d terms %r..., expected each term copied inside every image with its type (%d terms)" % (plural, len(got), [t['atoms'] for t in got][:4], len(want))
-    if reps == (1, 1, 1) and vr != va:
+    if (ra, rb, rc) == (1, 1, 1) and vr != va:
         return "1x1x1 replication is not the identity"
     if probs:
         return "inconsistent replicated object: " + "; ".join(probs)
@@ -113,6 +121,15 @@ def run(rec, tier, seed):
                     rec.case(repr(spec), sample=spec if len(rec.samples) < 2 else None)
                     if msg:
                         rec.fail('replicate', 'replicate', "%s on %r" % (msg, spec), spec, 'C12/replicate/post')
+    # the replication triple given as a numpy array / a list; a cell with a small residual net charge
+    for ci, cell in enumerate(CELLS):
+        for r in ((1, 1, 1), (2, 1, 1), (1, 2, 2)):
+            for as_ in ('array', 'list'):
+                spec = dict(cell=cell, n=3, seed=seed + 5, terms=True, coeffs=True, extra=False, kinds=None, reps=list(r), reps_as=as_, tiny_net=bool((ci + len(as_)) % 2))
+                msg = check(spec)
+                rec.case(repr(spec), group='triple-as-array-or-list')
+                if msg:
+                    rec.fail('replicate', 'replicate', "%s on %r" % (msg, spec), spec, 'C12/replicate/post')
     for cell in CELLS:
         for axis, r in ((1, (2, 1, 1)), (2, (1, 2, 1)), (3, (2, 1, 2)), (1, (1, 2, 2))):
             spec = dict(cell=cell, n=3, seed=seed + 7, terms=True, coeffs=True, extra=False, kinds=None, reps=list(r), on_faces=axis)
